@@ -8,6 +8,9 @@ use egglog::EGraph;
 
 pub mod c01;
 pub mod c03;
+pub mod c13;
+pub mod c14;
+pub mod lockstep;
 pub mod corpus;
 pub mod c16;
 pub mod c17;
